@@ -168,10 +168,16 @@ PROPS["C15"] = {
 PIPE_TRUSTED = LIST_TRUSTED + [
     "sorted(list, key=f): a stable permutation ordered by the key, same total row length (builtin axioms)",
     "object identity of Fragment rows through allocation stamps; Gap identity not modelled",
+    "dict model: setdefault (two paths), len (size map kept in step with presence), values() as a list each of whose elements is stored under some present key",
+    "list comprehensions [f(x) for x in xs] and zip(xs, ys[, strict=True]) loops: element-wise over the list model",
+    "dynamic dispatch: a member overridden in a subclass is resolved by the object's class (class map); references declared exact (constructor results, output assemblies) are not dispatched",
+    "a generator method under an `as_list` contract is the list of what it yields (scaffolds_fused_by_name); statement postconditions are proved where they stand and used from there on (cut)",
+    "ASSUMED call-site effects (not derived from the bodies): ScaffoldNamer.make_scaffold_name only reads the scaffold it is given, sets name / rank / haplotype state and starts an empty unloc list; Scaffold.fragment_tags returns a new set; ChrNamer.add_scaffold / add_chr_prefix / name_chromosomes change nothing but scaffold names; AssemblyStats.make_stats changes only the statistics object; Assembly.smart_sort_scaffolds permutes the scaffold list in place",
 ]
-PIPE_NOTE = ("The remapping pipeline is a heap of aliased mutable overlap results driven by interacting heuristics (OverhangResolver.make_fixes, "
-             "discard_overhanging_fragments, store_fragments_found, assemblies_with_scaffolds_fused, ChrNamer): those functions have no contract within reach "
-             "of the engine and the whole-pipeline clause is decided by the bounded tier (PretextView-model generator, exhaustive small scopes + seeded larger ones).")
+PIPE_NOTE = ("Under contract from the pipeline (each per piece / per row / per fused scaffold, i.e. as a postcondition of one loop iteration): find_overlaps, trimming and cutting, "
+             "store_fragments_found, add_overhang_premise and the premise what-ifs, scaffolds_fused_by_name, assemblies_with_scaffolds_fused, add_missing_scaffolds_from_input, rename_by_size, label_scaffold. "
+             "NOT under contract: OverhangResolver.make_fixes, discard_overhanging_fragments, find_assembly_overlaps (the composition of the steps), the functional behaviour of make_scaffold_name, ChrNamer, AssemblyStats - "
+             "the whole-pipeline clause is decided by the bounded tier (PretextView-model generator, exhaustive small scopes + seeded larger ones).")
 
 PROPS["C01"] = {
     "level": "other",
